@@ -28,6 +28,7 @@ class Msg:
             t = COOKIE + t[4:]
         self.txid = t
         self.body = b""
+        self.padbyte = 0       # RFC 5389 15: padding bits are ignored and may be any value
 
     def has_cookie(self):
         return self.txid[:4] == COOKIE
@@ -38,7 +39,7 @@ class Msg:
             self.body += struct.pack(">HH", ty, len(val) if lenfield is None else lenfield) + val
         else:
             lf = len(val) if self.has_cookie() else len(val) + pad4(len(val))
-            self.body += struct.pack(">HH", ty, lf if lenfield is None else lenfield) + val + bytes(pad4(len(val)))
+            self.body += struct.pack(">HH", ty, lf if lenfield is None else lenfield) + val + bytes([self.padbyte]) * pad4(len(val))
         return self
 
     def raw(self, lenfield=None):
